@@ -39,6 +39,10 @@ ASSUMPTIONS = [
 ]
 
 
+# line-length diagnostics on: they are recomputed on every check and must not pile up over a history
+C10_ARGV = fws.ARGV + ["--max_line_length", "50", "--max_comment_line_length", "40"]
+
+
 # ------------------------------------------------------------------ variants (computed from the model, stored as text)
 def variants_of(prog, r, other):
     """{file: [variant texts]} — semantic edits other files depend on."""
@@ -212,7 +216,7 @@ def execute(case, scratch):
     for n, t in disk.items():
         with open(os.path.join(root, n), "w") as fh:
             fh.write(t)
-    srv = Server(root=root, argv=fws.ARGV)
+    srv = Server(root=root, argv=C10_ARGV)
     buf = {}  # open documents: name -> client text
     info = {"changed_dep": False, "deleted": False, "created": False, "effective_ops": 0, "queried": False, "headers_touched": set()}
     P = lambda n: os.path.join(root, n)
@@ -304,7 +308,7 @@ def execute(case, scratch):
             srv.did_save(P(n))
         pos = battery.positions(disk, per_file=30)
         b_long = battery.run(srv, root, disk, pos)
-        fresh = Server(root=root, argv=fws.ARGV)
+        fresh = Server(root=root, argv=C10_ARGV)
         b_fresh = battery.run(fresh, root, disk, pos)
     except Exception as e:
         shutil.rmtree(root, ignore_errors=True)
